@@ -61,9 +61,19 @@ def c01(kind, case, r):
 
 
 # ---------------------------------------------------------------- C02
+def livelock(r):
+    if r["verdict"] == "steplimit":
+        tail = [" ".join(str(x) for x in lab) for en, pick, lab in r["trace"][-6:]]
+        return "run does not come to rest within %d steps (livelock); last steps %r; futures %r" % (
+            len(r["trace"]), tail, r["futures"])
+    return None
+
+
 def c02(kind, case, r):
     if has_fail(case):
         return None
+    if livelock(r):
+        return livelock(r)
     if r["verdict"] == "deadlock":
         return "run blocks forever: parked %r" % (r.get("parked"),)
     for i in submitted_ids(r):
@@ -82,6 +92,8 @@ def c02(kind, case, r):
 
 # ---------------------------------------------------------------- C05
 def c05(kind, case, r):
+    if livelock(r) and not has_fail(case):
+        return livelock(r)
     if r["verdict"] == "deadlock":
         why = "shutdown / program blocks forever: parked %r" % (r.get("parked"),)
         return tag(why, "D23") if has_fail(case) and case["mode"] in ("block", "dep-block") else why
@@ -153,6 +165,8 @@ def c07(kind, case, r):
             return "step %d: %d calls execute at once > %d" % (k, len(executing), lim)
     if not has_fail(case) and r["verdict"] == "deadlock":
         return "a request that fits is never started: parked %r" % (r.get("parked"),)
+    if not has_fail(case) and livelock(r):
+        return "a request that fits is never started: " + livelock(r)
     return None
 
 
@@ -206,6 +220,10 @@ def c12(kind, case, r):
 
 # ---------------------------------------------------------------- C03
 def c03(kind, case, r):
+    if not has_fail(case) and livelock(r):
+        return livelock(r)
+    if not has_fail(case) and r["verdict"] == "deadlock":
+        return "program of dependent calls blocks forever: parked %r futures %r" % (r.get("parked"), r["futures"])
     first_body = {}
     done_at = {}
     for k, (en, pick, lab) in enumerate(r["trace"]):
